@@ -83,15 +83,109 @@ def pmsim_differential(ctx, V, exe, n):
             V.violation("interference", "device-bytes", dict(sb.describe(), sick=sick), "bytes received by the healthy devices differ when %s misbehaves" % sick)
 
 
+# ------------------------------------------------------------------------------------------- directed pmsim differentials: delay / refusing tcp device
+DELAY_TOL = 20000          # us: poll works in ms and the environment charges 50 us per zero time-out round
+
+
+def _two_dev_cfg(rng, delay):
+    """d0 (coprocess, healthy, listed FIRST) whose `on` / `off` scripts sit in a `delay` between send and expect; d1 (tcp) listed after it"""
+    cfg = pmgen.Config()
+    d0 = pmgen.Dev("d0", ["login", "on", "off", "status"], hardwired=["p1", "p2"], transport="pipe", timeout=rng.choice([4.0, 6.0]))
+    for k in ("on", "off"):
+        body = pmgen.script_text(k)
+        first, rest = body.split("\n", 1)
+        d0.bodies[k] = first + "\n\t\tdelay %s\n" % delay + rest
+    d1 = pmgen.Dev("d1", ["login", "on", "off", "status"], hardwired=["p1"], transport="tcp", timeout=rng.choice([3.0, 5.0]))
+    cfg.devs += [d0, d1]
+    cfg.node_lines += [("n0,n1", "d0", "p1,p2"), ("n2", "d1", "p1")]
+    cfg.truth = {"d0": {"p1": "n0", "p2": "n1"}, "d1": {"p1": "n2"}}
+    return cfg
+
+
+def _reply_times(sess, k):
+    """virtual time at which each terminal line of client k's stream was complete"""
+    out, acc = [], b""
+    for t, data in sess.client_times.get(k, []):
+        acc += data
+        n = len(pmcheck.TERMINAL.findall(acc))
+        while len(out) < n: out.append(t)
+    return out
+
+
+def pmsim_directed(ctx, V, exe, n):
+    """(a) timing: the same requests on healthy d0 only, with d1 healthy vs d1 refusing every connect (back-off running): client streams AND the
+    virtual times of the replies must agree (d0's scripts wait in a `delay`: only the poll time-out wakes the daemon);
+    (b) mixed: a request spanning d0 and the refusing d1 gets its terminal reply within d1's time-out, d0 is commanded, d0's nodes are reported"""
+    refusals = ["refuse-hup", "refuse-soerr", "syncfail"]      # (PLAN lines, not PLANDEFAULT: pmsim.c parses `PLANDEFAULT x` as `PLAN DEFAULT`)
+    jobs = []
+    for i in range(n):
+        rng = random.Random(ctx.seed * 104729 + i)
+        delay = rng.choice(["0.7", "1.5", "2.5", "3.2"])
+        cfg = _two_dev_cfg(rng, delay)
+        kind = refusals[i % 3]
+        reqs = [rng.choice(["on n0", "off n1", "on n[0-1]", "off n0"]) for _ in range(rng.randint(1, 3))]
+        S = [("connect",), ("wait", 0)]
+        if rng.random() < 0.5: S += [("sleep", rng.choice([300000, 1500000, 2600000]))]
+        for r in reqs: S += [("send", 0, (r + "\r\n").encode()), ("wait", 0)]
+        S += [("send", 0, b"status n[0-1]\r\n"), ("wait", 0)]
+        sa = pmcheck.Scenario(cfg, list(S), dict(style="c05-delay", sick="d1", kind="healthy"))
+        sb = pmcheck.Scenario(cfg, [("raw", ["PLAN " + kind] * 80)] + list(S), dict(style="c05-delay", sick="d1", kind=kind), env={"PMSIM_PLAN": kind})
+        M = [("raw", ["PLAN " + kind] * 80), ("connect",), ("wait", 0), ("send", 0, rng.choice([b"on n[0-2]\r\n", b"off n0,n2\r\n", b"on n2,n1\r\n"])), ("wait", 0),
+             ("send", 0, b"status n[0-2]\r\n"), ("wait", 0)]
+        sm = pmcheck.Scenario(cfg, M, dict(style="c05-mixed", sick="d1", kind=kind), env={"PMSIM_PLAN": kind})
+        jobs.append((i, sa, sb, sm))
+    from concurrent.futures import ThreadPoolExecutor
+
+    def one(j):
+        i, sa, sb, sm = j
+        return (pmcheck.run_scenario(exe, sa, ctx.scratch, "c05da%d" % i, ctx.seed + i), pmcheck.run_scenario(exe, sb, ctx.scratch, "c05db%d" % i, ctx.seed + i),
+                pmcheck.run_scenario(exe, sm, ctx.scratch, "c05dm%d" % i, ctx.seed + i))
+    with ThreadPoolExecutor(16) as ex:
+        res = list(ex.map(one, jobs))
+    for (i, sa, sb, sm), (ra, rb, rm) in zip(jobs, res):
+        V.case(("pmsim-delay", sb.cfg.text(), repr(sb.script)), nontrivial=True); V.count("pmsim-delay-differential")
+        w = dict(sb.describe(), events=rb.sim.events)
+        for bad in pmcheck.mon_alive(rb, sb) + pmcheck.mon_no_wedge(rb, sb):
+            V.violation(bad[0], bad[1], w, bad[2])
+        if ra.client_out.get(0) != rb.client_out.get(0):
+            V.violation("interference", "client-stream", dict(w, healthy=ra.client_out.get(0, b"").decode("latin-1")[-500:], with_sick=rb.client_out.get(0, b"").decode("latin-1")[-500:]),
+                        "the client only names nodes of d0, yet its replies differ when d1 refuses every connect")
+        else:
+            ta, tb = _reply_times(ra, 0), _reply_times(rb, 0)
+            dmax = max([abs(x - y) for x, y in zip(ta, tb)] + [0])
+            V.count("delay-timestamps-within-tolerance" if dmax <= DELAY_TOL else "delay-timestamps-off")
+            if len(ta) != len(tb) or dmax > DELAY_TOL:
+                V.violation("interference", "reply-time", dict(w, healthy_times=ta, with_sick_times=tb),
+                            "replies for d0's nodes arrive at different virtual times when d1 refuses every connect (max difference %d us > %d): d0's `delay` wake-up depends on d1" % (dmax, DELAY_TOL))
+        # (b) mixed
+        V.case(("pmsim-mixed", sm.cfg.text(), repr(sm.script)), nontrivial=True); V.count("pmsim-mixed")
+        wm = dict(sm.describe(), events=rm.sim.events, client_out=rm.client_out.get(0, b"").decode("latin-1")[-800:])
+        for bad in pmcheck.mon_alive(rm, sm) + pmcheck.mon_no_wedge(rm, sm) + pmcheck.mon_protocol(rm, sm):
+            V.violation(bad[0], bad[1], wm, bad[2])
+        tm = _reply_times(rm, 0)
+        tmo1 = int(sm.cfg.devs[1].timeout * 1000000); tmo0 = int(sm.cfg.devs[0].timeout * 1000000)
+        bound = tmo1 + tmo0 + 4000000          # banner, then each reply at most one device time-out (+ the delay) after its request
+        if len(tm) >= 2 and tm[1] - tm[0] > bound:
+            V.violation("mixed", "reply-late", dict(wm, times=tm), "the reply to a request spanning d0 and the refusing d1 took %d us (> %d)" % (tm[1] - tm[0], bound))
+        cmd = sm.script[3][2].decode().split()[0].upper()
+        if not any(l[1] == cmd and l[3] == "answered" for l in rm.devs["d0"].log):
+            V.violation("mixed", "healthy-device-not-commanded", wm, "d0 never received its share (%s) of the request spanning d0 and the refusing d1" % cmd)
+        out = rm.client_out.get(0, b"")
+        if rm.alive_after_script and not rm.wedged and b"d1: connect timeout" not in out and b"d1" not in out:
+            V.violation("mixed", "sick-device-not-reported", wm, "the reply does not name the refusing device d1")
+        V.count("mixed-ok")
+
+
 def run(ctx, V):
     consts, devh, enq, model = C07.setup(ctx, V)
     n = 200 if ctx.tier == "quick" else 5000
     cases = [(c, a, C07.uniq_clients(o)) for c, a, o in C08.directed_cases(consts)] + C07.directed(consts, ctx.rng) + [C07.gen_case(ctx.rng, consts, "any") for _ in range(n)]
-    C07.correspond(ctx, V, cases, ("fd", "fifo", "count"), consts, devh, enq, model)
+    C07.correspond(ctx, V, cases, ("fd", "fifo", "count", "timer"), consts, devh, enq, model)
     rdev_differential(ctx, V, consts, devh, 120 if ctx.tier == "quick" else 3000)
     import pmsim
     exe = pmsim.build(ctx)
     pmsim_differential(ctx, V, exe, 40 if ctx.tier == "quick" else 1500)
+    pmsim_directed(ctx, V, exe, 12 if ctx.tier == "quick" else 300)
     scs = [pmcheck.gen_scenario(ctx.rng, style="faults", ndev=3) for i in range(120 if ctx.tier == "quick" else 4000)]
     pmcheck.run_batch(ctx, V, exe, scs, ["alive", "wedge", "protocol"], "c05")
     V.rule = ("(1) R-DEV exact correspondence as in C07 (hostile histories incl. two devices with one sick); (2) R-DEV differential on the IMPLEMENTATION: two-device "
